@@ -42,6 +42,9 @@ def gen_presentation(rng, n, canonical=False, path='LIB'):
              'crlf': 1 if rng.random() < 0.15 else 0, 'trail': rng.choice(['', '', ' ', '  \t']) if fmt in ('fasta', 'afasta') else '',
              'seed': rng.getrandbits(32)}
         sources.append(s)
+    for s_ in sources:
+        if rng.random() < 0.1:
+            s_['where'] = 'pipe'      # a path that is not a regular file (named pipe, <(...), /proc): readable, stat() says size 0, no seeking
     if rng.random() < 0.08:
         # a split in which one of the sources holds no record at all (an empty file among the inputs)
         sources.insert(rng.randrange(len(sources) + 1), {'where': 'file', 'fmt': 'fasta', 'recs': [], 'width': 0, 'gapfrac': 0.0, 'gapsym': '-', 'blank': 0, 'crlf': 0, 'trail': '', 'seed': 0, 'empty': 1})
@@ -143,7 +146,7 @@ def plan_for(spec, pres, tag):
             files.append(None)
         else:
             fn = 'src%d.%s' % (k, {'fasta': 'fa', 'afasta': 'afa', 'msf': 'msf', 'clu': 'aln'}[src['fmt']])
-            p.files.append((fn, 'f', data))
+            p.files.append((fn, 'p' if src['where'] == 'pipe' else 'f', data))
             files.append(fn)
     if not have_stdin:
         p.stdin = ('tty', b'')
